@@ -58,3 +58,45 @@ Print Assumptions C11_parent_child_code.
 (* non-vacuity *)
 Example C11_example : unbox 3 (box 3 [5; 0; 7]) = [5; 0; 7] /\ unbox 3 (parent 3 (box 3 [5; 0; 7])) = [2; 0; 3].
 Proof. vm_compute. split; reflexivity. Qed.
+
+(* ---- position codes and list builders (Index/ListsProofs.v) ---- *)
+From Tbfmm Require Import Index.ListsDefs Index.ListsSpec Index.ListsProofs.
+From Coq Require Import Sorting.Permutation.
+
+(* position-code encode/decode are inverse *)
+Theorem C11_dec7_enc7 : forall d o, length o = d -> Forall (fun x => -3 <= x <= 3) o -> dec7 d (enc7 o) = o.
+Proof. exact dec7_enc7. Qed.
+Print Assumptions C11_dec7_enc7.
+Theorem C11_enc7_dec7 : forall d c, 0 <= c < 7 ^ dz d ->
+  enc7 (dec7 d c) = c /\ length (dec7 d c) = d /\ Forall (fun x => -3 <= x <= 3) (dec7 d c).
+Proof. exact enc7_dec7. Qed.
+Print Assumptions C11_enc7_dec7.
+Theorem C11_dec3_enc3 : forall d o, length o = d -> Forall (fun x => -1 <= x <= 1) o -> dec3 d (enc3 o) = o.
+Proof. exact dec3_enc3. Qed.
+Print Assumptions C11_dec3_enc3.
+Theorem C11_enc3_dec3 : forall d c, 0 <= c < 3 ^ dz d ->
+  enc3 (dec3 d c) = c /\ length (dec3 d c) = d /\ Forall (fun x => -1 <= x <= 1) (dec3 d c).
+Proof. exact enc3_dec3. Qed.
+Print Assumptions C11_enc3_dec3.
+
+(* the upper-half filter keeps exactly the lexicographically positive offsets, and exactly one of o / -o is positive:
+   each adjacent pair of cells is visited from one side *)
+Theorem C11_upper_half : forall d o, length o = d -> Forall (fun x => -1 <= x <= 1) o -> lex_positive d o = lexposb o.
+Proof. exact upper_half. Qed.
+Print Assumptions C11_upper_half.
+Theorem C11_upper_half_antisym : forall o, Forall (fun x => -1 <= x <= 1) o ->
+  existsb (fun x => negb (x =? 0)) o = true -> lexposb (map Z.opp o) = negb (lexposb o).
+Proof. exact upper_half_antisym. Qed.
+Print Assumptions C11_upper_half_antisym.
+
+(* the interaction list is exactly the set of children of the parent's neighbours that are not adjacent to the cell, and the
+   neighbour list exactly the adjacent cells - wrapped when periodic, clipped otherwise - each tagged with the code of the
+   true relative offset (ilist_spec / nlist_spec are that definition written on coordinates); every d, level and cell *)
+Theorem C11_ilist_exact : forall d per l idx, (0 < d)%nat -> 0 <= l -> 0 <= idx < 2 ^ (l * dz d) ->
+  Permutation (ilist_cell d per l idx) (ilist_spec d per l idx).
+Proof. exact ilist_exact. Qed.
+Print Assumptions C11_ilist_exact.
+Theorem C11_nlist_exact : forall d per l upper idx, (0 < d)%nat -> 0 <= l -> 0 <= idx < 2 ^ (l * dz d) ->
+  Permutation (nlist_cell d per l upper idx) (nlist_spec d per l upper idx).
+Proof. exact nlist_exact. Qed.
+Print Assumptions C11_nlist_exact.
